@@ -107,6 +107,10 @@ func (v DenseFloat32Vector) ReverseOrder() {
   }
 }
 func (v DenseFloat32Vector) Slice(i, j int) Vector {
+  // do not expose elements beyond the end of a sub-slice
+  if j > len(v) {
+    panic("index out of bounds")
+  }
   return v[i:j]
 }
 func (v DenseFloat32Vector) Swap(i, j int) {
@@ -160,6 +164,9 @@ func (v DenseFloat32Vector) ConstAt(i int) ConstScalar {
   return Float32{&v[i]}
 }
 func (v DenseFloat32Vector) ConstSlice(i, j int) ConstVector {
+  if j > len(v) {
+    panic("index out of bounds")
+  }
   return v[i:j]
 }
 func (v DenseFloat32Vector) AsConstMatrix(n, m int) ConstMatrix {
